@@ -4,6 +4,7 @@ pub mod c01;
 pub mod c02;
 pub mod c03;
 pub mod c04;
+pub mod c06;
 
 pub fn dispatch(cfg: &Cfg) -> Option<Outcome> {
     Some(match cfg.prop.as_str() {
@@ -11,6 +12,7 @@ pub fn dispatch(cfg: &Cfg) -> Option<Outcome> {
         "C02" => c02::run(cfg),
         "C03" => c03::run(cfg),
         "C04" => c04::run(cfg),
+        "C06" => c06::run(cfg),
         _ => return None,
     })
 }
